@@ -65,6 +65,7 @@ fn main() {
                 i += 1
             }
             "--replay" => replay = true,
+            "--small" => gen::SMALL.store(true, std::sync::atomic::Ordering::Relaxed),
             a => {
                 eprintln!("unknown arg {a}");
                 std::process::exit(2)
